@@ -28,6 +28,7 @@ import (
 	"go/token"
 	"go/types"
 	"os"
+	"regexp"
 	"sort"
 	"strings"
 
@@ -267,7 +268,7 @@ func (w *World) effectsIn(fn *ssa.Function, region func(*ssa.BasicBlock) bool, o
 				if b, isB := c.Value.(*ssa.Builtin); isB {
 					// removing an entry / closing a channel cannot be inlined away either
 					if (b.Name() == "delete" || b.Name() == "close") && len(c.Args) > 0 {
-						set["builtin."+b.Name()+" "+w.sigString(c.Args[0], 3)] = true
+						set["builtin."+b.Name()+" "+types.TypeString(c.Args[0].Type(), func(p *types.Package) string { return p.Name() })] = true
 					}
 					continue
 				}
@@ -730,7 +731,7 @@ func (w *World) orderSigs(fn *ssa.Function) []orderSig {
 				c := x.Common()
 				if bi, isB := c.Value.(*ssa.Builtin); isB {
 					if (bi.Name() == "delete" || bi.Name() == "close") && len(c.Args) > 0 {
-						effects = append(effects, item{in, "builtin." + bi.Name() + " " + w.sigString(c.Args[0], 3)})
+						effects = append(effects, item{in, "builtin." + bi.Name() + " " + types.TypeString(c.Args[0].Type(), func(p *types.Package) string { return p.Name() })})
 					}
 					continue
 				}
@@ -826,6 +827,12 @@ func writeBaselineSigs(w *World, path string) error {
 	b, _ := json.MarshalIndent(out, "", " ")
 	return os.WriteFile(path, b, 0o644)
 }
+
+var tupleIdx = regexp.MustCompile(`#\d+`)
+
+// normEffectArg: the table a delete / close acts on, without the tuple positions of how the value was fetched
+// (`v, ok := m[k]` and `m[k]` name the same entry).
+func normEffectArg(s string) string { return tupleIdx.ReplaceAllString(s, "") }
 
 func dropAccessors(xs []string) []string {
 	out := []string{}
